@@ -271,6 +271,31 @@ def run(ctx):
                    what="%s does not carry property values as Value itself" % ty.split("::")[-1], where=P.adts[ty]["file"])
     serde_complete(ctx, P, "R5b", list(need) + ["grafeo_engine::database::SnapshotEdge"])
 
+    # ---- R8 a state that is promoted keeps what it has accumulated: when AggregateState::update replaces the state by
+    # another variant (integer sum -> float sum on the first float), every field of the new state is computed from the
+    # field at the same position of the old one. A DISTINCT sum that starts its seen-set afresh at the promotion counts
+    # values again that it has already added: DISTINCT separates equal values, and the result depends on the row order.
+    up = P.fn("AggregateState::update")
+    ux = FlowCx(P, up)
+    AS = P.adt("operators::aggregate::AggregateState")
+    n8 = 0
+    for v in [x["name"] for x in AS["variants"]]:
+        for (bi, si, rv, ln) in find_aggregates(up, "AggregateState", v):
+            olds = [x[2] for x in ux.facts_at(bi) if x[0] == "variant" and x[1].endswith("AggregateState")]
+            if not olds or olds[0] == v:
+                continue
+            old = olds[0]
+            n8 += 1
+            missing = []
+            for i, o in enumerate(rv[4]):
+                if ("cell:%s.%d" % (old, i)) not in ux.tags(o):
+                    missing.append(i)
+            ctx.ob("R8", "AggregateState::update#%s->%s" % (old, v), not missing,
+                   what="AggregateState::update promotes %s to %s without carrying over field(s) %s of the old state: what was "
+                        "accumulated (sum so far / the set of values already seen) is lost, and later duplicates are counted again"
+                        % (old, v, missing), where=up.loc(ln))
+    ctx.floor("R8", n8, 4, "state promotions in AggregateState::update")
+
     # ---- R7 JSON for the C binding: value_to_json writes each Value variant as a JSON shape from which json_to_value can
     # build that variant again (the reader's table, per JSON shape, contains the variant the writer used that shape for)
     JS = ["Null", "Bool", "Number", "String", "Array", "Object"]
